@@ -113,7 +113,7 @@ class C04(Check):
             big = rng.random() < 0.25
             ops = [gen.gen_op(rng, "cellrow", "big" if big else "small") for _ in range(rng.randint(1, 3))]
             ops += gen.gen_program(rng, gen.MIX_LATTICE, rng.randint(2, 6), "small", ["lbox:0,0,0,1,1,1"])[1:]
-            thr, lazy, nsched = (1 if big else rng.choice([64, 16])), 0, 4
+            thr, lazy, nsched = (1 if big else rng.choice([64, 64, 64, 16])), 0, 6
         elif arm == "2d":
             ops = gen.gen_program(rng, gen.MIX_2D, rng.randint(8, 20), rng.choice(["small", "big"]))
             thr, lazy, nsched = rng.choice([1, 64]), 0, 2
@@ -131,8 +131,10 @@ class C04(Check):
         prog = gen.prog_text(case["ops"])
         base = {"prog": prog, "lazy": case["lazy"], "maxtri": 150000 if case["arm"] == "big" else 60000}
         jobs = [{"flavour": "ser", "kind": "prog", "args": dict(base, thr=case["thr"]), "timeout": 600, "case": case, "role": "ref"}]
-        for _ in range(case["nsched"]):
+        for si in range(case["nsched"]):
             pa = self.par_args(rng, case["thr"])
+            if case["arm"] == "cells":
+                pa["W"] = WS[si % len(WS)]  # partition sizes depend on the arena concurrency: cover every worker count
             jobs.append({"flavour": "par", "kind": "prog", "args": dict(base, **pa), "timeout": 900, "case": case, "role": "par"})
         return jobs
 
@@ -149,7 +151,7 @@ class C04(Check):
         while self.time_left() > (20 if quick else 60):
             rounds += 1
             cases = []
-            arms = (["small"] * 20 + ["lattice"] * 8 + ["cells"] * 8 + ["lazy"] * 6 + ["2d"] * 6 + ["medium"] * 4 + ["big"] * (5 if quick else 8))
+            arms = (["small"] * 20 + ["lattice"] * 8 + ["cells"] * 10 + ["lazy"] * 6 + ["2d"] * 6 + ["medium"] * 4 + ["big"] * (5 if quick else 8))
             for arm in arms:
                 cases.append(self.make_case(rng, arm))
             jobs = []
@@ -226,11 +228,11 @@ class C04(Check):
         crng = random.Random(self.seed + 991)
         for ci, (key, desc, replay, step) in enumerate(todo):
             for ti, prog in enumerate(self.scale_up_programs(replay, step)):
-                jobs.append({"flavour": "ser", "kind": "prog", "args": {"prog": prog, "thr": 1, "maxtri": 400000}, "timeout": 600,
+                jobs.append({"flavour": "ser", "kind": "prog", "args": {"prog": prog, "thr": 1, "maxtri": 1000000}, "timeout": 600,
                              "cand": ci, "try": ti, "role": "ref"})
-                for _ in range(3):
-                    pa = {"W": crng.choice([2, 4, 8]), "stay": crng.choice([30, 60]), "own": 70, "seed": crng.randrange(1, 1 << 30), "thr": 1}
-                    jobs.append({"flavour": "par", "kind": "prog", "args": dict({"prog": prog, "maxtri": 400000}, **pa), "timeout": 600,
+                for W in WS:
+                    pa = {"W": W, "stay": crng.choice([30, 60]), "own": 70, "seed": crng.randrange(1, 1 << 30), "thr": 1}
+                    jobs.append({"flavour": "par", "kind": "prog", "args": dict({"prog": prog, "maxtri": 1000000}, **pa), "timeout": 600,
                                  "cand": ci, "try": ti, "role": "par", "pa": pa, "prog": prog})
         res = self.pool.run_all(jobs) if jobs else []
         confirmed = {}
@@ -247,7 +249,7 @@ class C04(Check):
             key = todo[j["cand"]][0]
             for (s_, o, f) in compare(ref, r["res"], None):
                 if gen.op_kind(o) == key["op_kind"]:
-                    confirmed[j["cand"]] = {"property": "C04", "program": j["prog"], "lazy": 0, "par_args": j["pa"], "maxtri": 400000, "arm": "confirm"}
+                    confirmed[j["cand"]] = {"property": "C04", "program": j["prog"], "lazy": 0, "par_args": j["pa"], "maxtri": 1000000, "arm": "confirm"}
                     break
         for ci, (key, desc, replay, step) in enumerate(todo):
             if ci in confirmed:
@@ -284,15 +286,35 @@ class C04(Check):
         if step >= len(ops):
             return []
         op = ops[step]
-        tries = [";".join(BIG_PREFIX + [op])]
-        big = []
-        for o in ops[:step + 1]:
-            if o.startswith("sphere:"):
-                a = o.split(":")[1].split(",")
-                big.append("sphere:%s,66" % a[0])
-            else:
-                big.append(o)
-        tries.append(";".join(big))
+        rng = random.Random(hash(replay["program"]) & 0xffff)
+
+        def bigger(o):
+            """Size-scaled variants of a constructor op."""
+            name, _, rest = o.partition(":")
+            a = rest.split(",") if rest else []
+            if name == "sphere":
+                return ["sphere:%s,66" % a[0]]
+            if name == "cellrow":
+                # 44500 boxes: above the 2^18-vertex threshold of CreateHalfedges' large-vertex-count path
+                return ["cellrow:%d,%s,%s" % (m, a[1], a[2]) for m in (3000, 3001, 3002, rng.randint(2500, 5500), 44500)]
+            if name == "circle":
+                return ["circle:%s,1800" % a[0]]
+            if name == "cyl":
+                return ["cyl:%s,%s,%s,390,%s" % (a[0], a[1], a[2], a[4])]
+            if name == "levelset":
+                return ["levelset:%s,20,%s,%s" % (a[0], a[2], a[3])]
+            return [o]
+
+        tries = []
+        if gen.op_kind(op) in ("sphere", "cellrow", "circle", "cyl", "levelset"):
+            for v in bigger(op):
+                tries.append(v)
+        else:
+            tries.append(";".join(BIG_PREFIX + [op]))
+            big = []
+            for o in ops[:step + 1]:
+                big.append(bigger(o)[0])
+            tries.append(";".join(big))
         return tries
 
     def reproduce(self, replay, fresh=False):
